@@ -1,5 +1,6 @@
-/- C20 audit: axioms and statements of every property theorem -/
 import CalmVerif.Props.C20
+import CalmVerif.Props.C20typed
+/- C20 audit: axioms and statements of every property theorem -/
 #print axioms CalmVerif.Props.C20.defs_indent_net_zero
 #check @CalmVerif.Props.C20.defs_indent_net_zero
 #print axioms CalmVerif.Props.C20.indent_table_normalisations_balanced
@@ -52,3 +53,7 @@ import CalmVerif.Props.C20
 #check @CalmVerif.Props.C20.pretty_lines_indented_typed
 #print axioms CalmVerif.Props.C20.pretty_text_ends_with_one_newline_typed
 #check @CalmVerif.Props.C20.pretty_text_ends_with_one_newline_typed
+#print axioms CalmVerif.Props.C20typed.parsed_pretty_lines_indented
+#check @CalmVerif.Props.C20typed.parsed_pretty_lines_indented
+#print axioms CalmVerif.Props.C20typed.parsed_pretty_ends_with_one_newline
+#check @CalmVerif.Props.C20typed.parsed_pretty_ends_with_one_newline
